@@ -295,3 +295,48 @@ Print Assumptions C08_exec_group0_is_match_span.
 (* non-vacuity: a^n b^n with (?<2-1>b) and (?<-2>) on "aabb" meets every hypothesis; the interpreter returns
    with group 0 set and marker pairs in slots 1 and 2 (Proofs/ComposeExec.v, by vm_compute) *)
 Example C08_exec_witness := cx_demo.
+
+(* ---- ... without the residual hypothesis "Spec.attempt e fuel root t0 = Ok r" (Proofs/SpecTermProofs.v proves
+   that the reference attempt terminates with fuel  term_fuel e root  on trees with one-directional loop bodies;
+   Proofs/ComposeTerm.v chains).  The two hypotheses that replace it are decidable on the instance:
+   term_ok root = true  and  Z.of_nat (term_fuel e root) <= INF. *)
+From Verif Require Import Proofs.SpecTermProofs Proofs.ComposeTerm.
+
+Theorem C08_exec_captures_in_bounds_terminating :
+  forall (e : env) (p : program), 0 <= trackcount p -> tlen e <= INF ->
+  forall L vfuel o body t0 s',
+  let root := NCapture o 0 (-1) body in
+  codes p = fst (compile cfg0 root) -> strings p = snd (compile cfg0 root) ->
+  supported2 root = true -> groups_ok2 (capsize p) root -> 0 <= t0 <= tlen e ->
+  term_ok root = true -> Z.of_nat (term_fuel e root) <= INF ->
+  exec_at e p L vfuel t0 = Ok s' -> matched0 s' = true ->
+  0 <= tp s' <= tlen e /\
+  forall g, 0 <= g < capsize p ->
+    exists ps stk,
+      nth (Z.to_nat g) (mcaps s') [] = flat (rev ps) /\ Den ps stk /\
+      (forall i len, In (i, len) stk -> 0 <= i /\ 0 <= len /\ i + len <= tlen e) /\
+      vm_is_matched g (mcaps s') = Some (match stk with [] => false | _ => true end) /\
+      (forall i len rest, stk = (i, len) :: rest ->
+         vm_match_index g (mcaps s') = Some i /\ vm_match_length g (mcaps s') = Some len).
+Proof. exact ct_exec_captures_in_bounds. Qed.
+Print Assumptions C08_exec_captures_in_bounds_terminating.
+
+Theorem C08_exec_group0_is_match_span_terminating :
+  forall (e : env) (p : program), 0 <= trackcount p -> tlen e <= INF ->
+  forall L vfuel o body t0 s',
+  let root := NCapture o 0 (-1) body in
+  codes p = fst (compile cfg0 root) -> strings p = snd (compile cfg0 root) ->
+  supported2 root = true -> groups_ok2 (capsize p) root -> 0 <= t0 <= tlen e ->
+  term_ok root = true -> Z.of_nat (term_fuel e root) <= INF ->
+  no_group0 body ->
+  exec_at e p L vfuel t0 = Ok s' -> matched0 s' = true ->
+  0 < capsize p /\
+  (exists ps, nth 0 (mcaps s') [] = flat (rev ps) /\
+              Den ps [(Z.min t0 (tp s'), Z.abs (tp s' - t0))]) /\
+  vm_is_matched 0 (mcaps s') = Some true /\
+  vm_match_index 0 (mcaps s') = Some (Z.min t0 (tp s')) /\
+  vm_match_length 0 (mcaps s') = Some (Z.abs (tp s' - t0)).
+Proof. exact ct_exec_group0_is_match_span. Qed.
+Print Assumptions C08_exec_group0_is_match_span_terminating.
+
+Example C08_terminating_witness := ct_demo.
